@@ -1,5 +1,6 @@
 import CardVerif.Props.C18
 import CardVerif.Props.C18b
+import CardVerif.Props.C18c
 /-! # Axiom audit for C18 (part a) -/
 #print axioms CardVerif.C18.rank5_sym
 #print axioms CardVerif.C18.specKey_sym
@@ -13,3 +14,5 @@ import CardVerif.Props.C18b
 #print axioms CardVerif.C18.canon_idem
 #print axioms CardVerif.C18.canon_invariant
 #print axioms CardVerif.C18.split_deadwood_sym
+#print axioms CardVerif.C18.ricky_value_sym
+#print axioms CardVerif.C18.layoff_deadwood_sym
